@@ -25,6 +25,8 @@ namespace occa {
 
         void afterParsing();
 
+        void checkKernelCalls();
+
         virtual void beforeKernelSplit();
         virtual void afterKernelSplit();
 
